@@ -74,6 +74,7 @@ structure RootReport where
   unresolved : List Str
   unbalanced : List Str
   heldAtEnd : List Str
+  chanUnderLock : List (Str × List Str)
 deriving DecidableEq, Repr
 
 def script (e : Env) (r : String) : List ETok :=
@@ -84,13 +85,15 @@ def script (e : Env) (r : String) : List ETok :=
 def reportOf (e : Env) (r : String) : RootReport :=
   let sc := scan conds (script e r)
   { root := s r, reentry := sc.reentry, waits := sc.waits, edges := sc.edges, unresolved := sc.unresolved,
-    unbalanced := sc.unbalanced, heldAtEnd := sc.held }
+    unbalanced := sc.unbalanced, heldAtEnd := sc.held, chanUnderLock := sc.chanUnderLock }
 
 def report : List RootReport := roots.map (reportOf env)
 
-def clean (r : String) (edges : List (String × String)) (unresolved : List String := []) : RootReport :=
+def clean (r : String) (edges : List (String × String)) (unresolved : List String := [])
+    (chanUnderLock : List (String × List String) := []) : RootReport :=
   { root := s r, reentry := [], waits := [], edges := edges.map (fun p => (s p.1, s p.2)),
-    unresolved := unresolved.map s, unbalanced := [], heldAtEnd := [] }
+    unresolved := unresolved.map s, unbalanced := [], heldAtEnd := [],
+    chanUnderLock := chanUnderLock.map (fun p => (s p.1, p.2.map s)) }
 
 /-- The report the protocol model was written against: no re-entry, no wait under a foreign lock, nothing held at
 the end, and exactly these lock-order edges. -/
@@ -99,7 +102,9 @@ def expectedReport : List RootReport :=
    clean "Submit" [("w.mutex", "w.PendingTasksCounter.valueMutex"),
                    ("w.PendingTasksCounter.valueMutex", "w.PendingTasksCounter.subscribersMutex"),
                    ("w.mutex", "w.PendingTasksCounter.subscribersMutex")],
-   clean "Shutdown" [], clean "IsRunning" [], clean "WorkerCount" [],
+   -- the one blocking channel operation under a lock: `stop` sends the shutdown signals under the pool's write lock (the
+   -- channel's capacity is the worker count; the protocol model has this send as a step of its own that can block)
+   clean "Shutdown" [] [] [("send w.shutdownSignal", ["w.mutex"])], clean "IsRunning" [], clean "WorkerCount" [],
    clean "dispatcher" [("w.Queue.mutex", "w.mutex"), ("w.Queue.mutex", "w.PendingTasksCounter.valueMutex")],
    clean "worker" [("w.PendingTasksCounter.valueMutex", "w.PendingTasksCounter.subscribersMutex")] ["t.workerFunc"]]
 
